@@ -72,8 +72,8 @@ class C05(Prop):
     THEOREMS = ["AwProofs.C05.handle_cache_coherent", "AwProofs.C05.listing_preserved_sqlite", "AwProofs.C05.create_existing_rejected_peewee", "AwProofs.C05.create_existing_rejected_sqlite", "AwProofs.C05.create_listed_memory", "AwProofs.C05.create_listed_peewee", "AwProofs.C05.create_listed_sqlite", "AwProofs.C05.delete_removes_bucket_and_events_memory", "AwProofs.C05.delete_removes_bucket_and_events_peewee", "AwProofs.C05.delete_removes_bucket_and_events_sqlite", "AwProofs.C05.describe_is_view_memory", "AwProofs.C05.describe_is_view_peewee", "AwProofs.C05.describe_is_view_sqlite", "AwProofs.C05.listing_is_view_memory", "AwProofs.C05.listing_is_view_peewee", "AwProofs.C05.listing_is_view_sqlite", "AwProofs.C05.listing_keys_unique_memory", "AwProofs.C05.listing_keys_unique_peewee", "AwProofs.C05.listing_keys_unique_sqlite", "AwProofs.C05.missing_raises_and_unchanged_memory", "AwProofs.C05.missing_raises_and_unchanged_peewee", "AwProofs.C05.missing_raises_and_unchanged_sqlite", "AwProofs.C05.peewee_keys_coherent", "AwProofs.C05.peewee_keys_coherent_reachable", "AwProofs.C05.recreate_is_empty_memory", "AwProofs.C05.recreate_is_empty_peewee", "AwProofs.C05.recreate_is_empty_sqlite", "AwProofs.C05.stored_meta_memory", "AwProofs.C05.update_empty_rejected_sqlite", "AwProofs.C05.update_fields_memory", "AwProofs.C05.update_fields_sql", "AwProofs.C05.update_none_unchanged_memory", "AwProofs.C05.update_none_unchanged_sql", "AwProofs.C05.update_only_supplied_memory", "AwProofs.C05.update_only_supplied_peewee", "AwProofs.C05.update_only_supplied_sqlite"]
     MODEL_NEEDS_IMPL = True
     WORKERS = 10
-    LEVEL_TEXT = "Lean 4 theorems on the three backend models: create/update/delete/lookup act on the view as on a keyed map"
-    LEVEL_NOTE = "trusts: Lean kernel; SQL statement semantics as modelled; metadata strings opaque; differential tie"
+    LEVEL_TEXT = 'Lean 4 theorems for each backend model: create_listed_B, update_only_supplied_B (+ field-wise update_fields_*), delete_removes_bucket_and_events_B, recreate_is_empty_B, missing_raises_and_unchanged_B, peewee_keys_coherent, handle_cache_coherent (Datastore.bucket_instances never holds a stale handle); models compared with the real backends on lifecycle histories incl. delete/re-create with writes and rejected creations'
+    LEVEL_NOTE = 'trusts: Lean kernel + 3 standard axioms; metadata strings opaque; create only on a fresh id (memory replaces, SQL backends reject: both stated as theorems)'
     TECHNIQUE = "Lean 4 invariant/refinement proof over backend models + differential correspondence on lifecycle histories"
     RULE = (
         "seeded random histories of create/update/delete/lookup/describe on three bucket ids mixed with event writes, "
